@@ -102,6 +102,7 @@ func checkC05(p *Program, r *Result) {
 	checkPrefixLoops(p, r, "C05.p", pkgMcap)
 	r.rule("C05.x", "MessageIndex.Add records its time and position arguments in a new entry and keeps the earlier ones", 4)
 	checkMessageIndexAdd(p, r, "C05.x")
+	checkPooledMessageIndexes(p, r, "C05.x")
 	r.rule("C05.i", "index records are written as they were accumulated: encoders do not modify or reorder the record they are handed", 1)
 	checkWriterDoesNotMutateInputs(p, r, "C05.i")
 }
